@@ -5,11 +5,11 @@ package main
 
 import (
 	"fmt"
-	"os"
-	"strconv"
 	"go/ast"
 	"go/token"
+	"os"
 	"sort"
+	"strconv"
 	"strings"
 	"sync"
 	"time"
@@ -62,10 +62,10 @@ type ProofOpts struct {
 	Thorough  bool
 	Verbose   bool
 	Sim       bool
-	SimAs     string // variant override for relative contracts
-	Alloc     bool // activate the @alloc clauses (ghost allocation counter bounds)
-	Rel       bool // also prove independence from the scratch parameters (2-safety)
-	OnlyKinds map[string]bool // restrict the check pass to these obligation kinds (no inference)
+	SimAs     string              // variant override for relative contracts
+	Alloc     bool                // activate the @alloc clauses (ghost allocation counter bounds)
+	Rel       bool                // also prove independence from the scratch parameters (2-safety)
+	OnlyKinds map[string]bool     // restrict the check pass to these obligation kinds (no inference)
 	Hook      func(fp *FuncProof) // driver-specific setup (adds atoms, spec hooks)
 	ExtraExit func(fp *FuncProof, pe *PathEnd) []*Oblig
 }
@@ -89,16 +89,16 @@ type FuncProof struct {
 	startEval map[*Cut]map[*Atom]evalRes
 	endEval   map[*PathEnd]map[*Atom]evalRes
 
-	ledger   *Ledger
-	stats    ProofStats
-	weak     map[[2]int]bool
-	problems []string
-	reach    map[*Cut]map[*Cut]bool
-	sim      *Sim
+	ledger     *Ledger
+	stats      ProofStats
+	weak       map[[2]int]bool
+	problems   []string
+	reach      map[*Cut]map[*Cut]bool
+	sim        *Sim
 	growBlocks map[int]bool
 	usedHints  bool
 	retOrd     map[token.Pos]int
-	mu       sync.Mutex
+	mu         sync.Mutex
 }
 
 type ProofStats struct {
